@@ -265,24 +265,25 @@ impl Ord for Bound {
             (Lower(Unbounded), _) | (_, Upper(Unbounded)) => Ordering::Less,
 
             (Upper(Including(v1)), Upper(Including(v2)))
-            | (Upper(Including(v1)), Lower(Including(v2)))
             | (Upper(Excluding(v1)), Upper(Excluding(v2)))
-            | (Upper(Excluding(v1)), Lower(Excluding(v2)))
-            | (Lower(Including(v1)), Upper(Including(v2)))
             | (Lower(Including(v1)), Lower(Including(v2)))
             | (Lower(Excluding(v1)), Lower(Excluding(v2))) => v1.cmp(v2),
 
+            // Bounds on the same version are ordered by where they sit around it:
+            // `<v` ends before `>=v` starts, which is before `<=v` ends, which is
+            // before `>v` starts.
             (Lower(Excluding(v1)), Upper(Excluding(v2)))
-            | (Lower(Including(v1)), Upper(Excluding(v2))) => {
+            | (Lower(Including(v1)), Upper(Excluding(v2)))
+            | (Upper(Including(v1)), Lower(Including(v2)))
+            | (Upper(Including(v1)), Upper(Excluding(v2)))
+            | (Lower(Excluding(v1)), Upper(Including(v2))) => {
                 if v2 <= v1 {
                     Ordering::Greater
                 } else {
                     Ordering::Less
                 }
             }
-            (Upper(Including(v1)), Upper(Excluding(v2)))
-            | (Upper(Including(v1)), Lower(Excluding(v2)))
-            | (Lower(Excluding(v1)), Upper(Including(v2))) => {
+            (Upper(Including(v1)), Lower(Excluding(v2))) => {
                 if v2 < v1 {
                     Ordering::Greater
                 } else {
@@ -297,7 +298,9 @@ impl Ord for Bound {
                 }
             }
             (Lower(Including(v1)), Lower(Excluding(v2)))
+            | (Lower(Including(v1)), Upper(Including(v2)))
             | (Upper(Excluding(v1)), Lower(Including(v2)))
+            | (Upper(Excluding(v1)), Lower(Excluding(v2)))
             | (Upper(Excluding(v1)), Upper(Including(v2))) => {
                 if v1 <= v2 {
                     Ordering::Less
